@@ -1,4 +1,4 @@
-#!/venv/bin/python
+#!/usr/bin/env python3
 """Generate /verif/RULES.md (rule catalogue as built) from the evidence files written by the checks."""
 import glob, json, os
 V = os.path.dirname(os.path.dirname(os.path.abspath(__file__)))
